@@ -65,7 +65,7 @@ def run(c):
         "(names, tags and embeddedness are not expressible in a pattern); a variadic signature is only denoted through a trailing $*_",
     ]
     c.build_theories()
-    c.require_theories("Types/GType.v", "Types/XIdentical.v", "Types/TypePat.v", "Types/TypePatInst.v", "Types/C14Run.v")
+    c.require_theories("Types/GType.v", "Types/XIdentical.v", "Types/TypePat.v", "Types/TypePatInst.v", "Types/TypePatClosed.v", "Types/C14Run.v")
     c.install_tmpl("C10/C10.v")
     c.coq_compile(["C10.v"])
 
